@@ -6,8 +6,8 @@
 
 using namespace vf;
 
-static const char* TOK[] = {"{", "}", "[", "]", ",", ":", "\"s\\u0041\"", "'q'", "k_1", "1", "-1.5e2", "true", "false", "null", " \n", "//c\n", "/*c*/", "#"};
-static const int NTOK = 18;
+static const char* TOK[] = {"{", "}", "[", "]", ",", ":", "\"s\\u0041\"", "'q'", "k_1", "1", "-1.5e2", "true", "false", "null", " \n", "//c\n", "/*c*/", "#", "/*a*b/c*/"};
+static const int NTOK = 19;
 
 static int tok_len() { return 5; }
 
@@ -133,6 +133,20 @@ void vf_run_case(Ctx& c, uint64_t index) {
     for (auto& ch : text) if (ch == '"' && r.chance(1, 6)) ch = '\'';
   }
   if (r.chance(1, 6)) { size_t p = text.find_first_of(",[{"); if (p != std::string::npos) text.insert(p + 1, r.coin() ? "/*x*/" : "//y\n"); }
+  if (r.chance(1, 6)) {   // comments with arbitrary bodies over a hostile alphabet, terminated or not, at a random token boundary
+    static const char calpha[] = "**//  a\n\"";
+    std::string body; size_t n = (size_t)r.below(9); for (size_t i = 0; i < n; i++) body += calpha[r.below(sizeof calpha - 1)];
+    std::string cm;
+    switch (r.below(4)) {
+      case 0: case 1: { size_t e = body.find("*/"); if (e != std::string::npos) body.erase(e, 1); cm = "/*" + body + "*/"; break; }
+      case 2: { for (auto& ch : body) if (ch == '\n') ch = ' '; cm = "//" + body + "\n"; break; }
+      default: cm = "/*" + body; break;   // possibly unterminated
+    }
+    std::vector<size_t> at; for (size_t i = 0; i < text.size(); i++) if (strchr(",[]{}:", text[i])) at.push_back(i);
+    size_t p = at.empty() ? 0 : at[r.below(at.size())] + (size_t)r.below(2);
+    text.insert(std::min(p, text.size()), cm);
+    c.count("hostile_comments");
+  }
   if (r.chance(1, 8)) { static const char* sp[] = {"NaN", "-NaN", "Infinity", "-Infinity", "inf", "nan", "+5", ".5", "5.", "1e", "007", "-", "+", "1e5.", "0x10", "1_000"}; size_t p = text.find_first_of("0123456789"); if (p != std::string::npos) text.replace(p, 1, r.pick(sp)); }
   if (r.chance(1, 12)) {   // number tokens around the 63-character limit
     size_t n = (size_t)r.range(60, 72);
